@@ -69,6 +69,25 @@ CHECKS = {
                 note="Assumed: slot storage and dict storage agree on get/set/has of the two bookkeeping attributes; syntactically "
                      "equal bodies under equal attribute semantics are observationally equal. Differential lock-step execution "
                      "(bounded) is used only for replay and in the thorough tier."),
+    "C15": dict(cat="proof", design="3/C15",
+                text="Walker.walk and __calc_common proved from their real bodies against the navigation contracts: WalkError iff "
+                     "the nodes have no common ancestor-or-self; otherwise the middle element is the lowest common ancestor "
+                     "(ancestor of both, below every common ancestor), upwards/downwards have the stated lengths, each step is "
+                     "a parent/child link, ends are start/common/end; ASSERTIONS branch proved; no IndexError.",
+                tech="contract-based deductive verification: AST->SMT VCs from /repo source, sidecar contracts, z3/cvc5",
+                note="Assumed: lemma L2 (identity-filter over zip with downward-closed agreement = common prefix; Lean), whose "
+                     "premise is proved at the use site; ghost forest functions exist (WF invariant, C01); mirror property "
+                     "walk(end,start) by symmetry of the postcondition."),
+    "C20": dict(cat="proof", design="3/C20",
+                text="SymlinkNodeMixin.__getattr__/__setattr__ and SymlinkNode.__init__ proved from their real bodies against "
+                     "effect-log contracts: the five names (two bookkeeping names, parent, children, target) are stored on the "
+                     "link by the default protocol and nothing touches the target; every other name is stored on / read from the "
+                     "target only; bookkeeping names and __setstate__ raise AttributeError without evaluating self.target; "
+                     "constructor: target local, kwargs into the target's __dict__, then parent, then children iff truthy.",
+                tech="contract-based deductive verification (attribute-effect world), z3 strings for attribute names",
+                note="Assumed: CPython's attribute protocol (when __getattr__ is consulted; what object.__setattr__ does for "
+                     "property names); the link's own position obeys C01-C03 because SymlinkNodeMixin inherits NodeMixin's "
+                     "verified methods and keeps the bookkeeping names local (premise proved here)."),
 }
 REASONS = {}
 
